@@ -119,6 +119,8 @@ impl Factory {
 
     /// A Matcher (never fails; failure is the Matcher's error state).
     pub fn matcher(&self, g: &GrammarSpec) -> Matcher {
+        // watchdog: what this thread works on from here (see watchdog.rs)
+        crate::watchdog::describe(serde_json::json!({"grammar": g.to_json(), "vocab_size": self.n_vocab}));
         Matcher::new(self.factory.create_parser(g.top()))
     }
 
